@@ -49,19 +49,12 @@ theorem dist_unit_symm (s t : List α) : dist unit s t = dist unit t s :=
   dist_symm unit rfl s t
 
 /-- A sequence is at distance 0 from itself, for every cost table. -/
-theorem dist_self (c : Costs) (s : List α) : dist c s s = 0 := by
-  obtain ⟨hw, hs, ht, hc⟩ := idAl_props c s
-  have := dist_le_cost c s s (idAl s) hw hs ht
-  omega
+theorem dist_self (c : Costs) (s : List α) : dist c s s = 0 := Lev.dist_self c s
 
 /-- With unit costs, zero errors means identical sequences (an error count of 0 is never reported
 for a line that differs from its reference, and never a positive one for an identical line). -/
-theorem dist_unit_eq_zero_iff (s t : List α) : dist unit s t = 0 ↔ s = t := by
-  constructor
-  · intro h
-    obtain ⟨al, hw, hs, ht, hc⟩ := dist_attained unit s t
-    rw [← hs, ← ht]; exact zero_cost_eq al hw (by omega)
-  · rintro rfl; exact dist_self unit s
+theorem dist_unit_eq_zero_iff (s t : List α) : dist unit s t = 0 ↔ s = t :=
+  Lev.dist_unit_eq_zero_iff s t
 
 /-- The unit-cost distance is at least the difference of the lengths (both directions). -/
 theorem dist_unit_ge_length_diff (s t : List α) :
